@@ -1,9 +1,241 @@
 import Olla.Driver.Util
+import Olla.Model.Breaker
+import Olla.Spec.C08
 
+/-
+Driver for C08.  Case kinds written by harness/repo/internal/zz_verif/c08:
+
+* `hist`  one history on one real breaker: `ops` (ints: -1 fail, -2 succ, -3 ask, d ≥ 0 tick d ns),
+          `obs` flat ints, five per step: answer (-1 none / 0 refused / 1 let through), phase 0/1/2,
+          failure counter, two breaker specific extras (health: lastAttempt set?; unifier: successes, halfOpenRequests)
+* `tree`  all 6^depth continuations of `prefix` over `alphabet`, observations packed as characters
+* `race`  m goroutines asking a breaker whose timeout has elapsed; admitted counts over the trials
+-/
 namespace Olla.Driver.C08
-open Lean Olla.Driver
+open Lean Olla.Driver Olla.Model.Breaker Olla.Spec.C08
 
-/-- placeholder until the C08 driver is written -/
-def main : IO Unit := pure ()
+def opOfInt (i : Int) : Op :=
+  if i == -1 then .fail else if i == -2 then .succ else if i == -3 then .ask else .tick i.toNat
+
+def opChar : Op → String
+  | .fail => "f" | .succ => "s" | .ask => "a" | .tick d => s!"t{d / 1000000}ms"
+
+def phaseOfNat : Nat → Phase
+  | 0 => .closed | 1 => .opened | _ => .halfOpen
+def natOfPhase : Phase → Nat
+  | .closed => 0 | .opened => 1 | .halfOpen => 2
+
+/-- One observed step: the property-level observation plus two extras compared for agreement only. -/
+structure Step where
+  obs : Obs
+  x1  : Nat
+  x2  : Nat
+deriving DecidableEq, Inhabited
+
+def resOfInt (i : Int) : Option Bool := if i < 0 then none else some (i != 0)
+
+partial def stepsOfInts : List Int → List Step
+  | r :: p :: f :: a :: b :: rest => ⟨⟨resOfInt r, phaseOfNat p.toNat, f.toNat⟩, a.toNat, b.toNat⟩ :: stepsOfInts rest
+  | _ => []
+
+def digit (c : Char) : Nat :=
+  if '0' ≤ c ∧ c ≤ '9' then c.toNat - '0'.toNat
+  else if 'a' ≤ c ∧ c ≤ 'z' then c.toNat - 'a'.toNat + 10 else 0
+
+partial def stepsOfChars : List Char → List Step
+  | r :: p :: f :: a :: b :: rest =>
+      ⟨⟨(if r == '-' then none else some (r == '1')), phaseOfNat (digit p), digit f⟩, digit a, digit b⟩ :: stepsOfChars rest
+  | _ => []
+
+def stepInts (s : Step) : List Int :=
+  [match s.obs.res with | none => -1 | some false => 0 | some true => 1,
+   (natOfPhase s.obs.phase : Int), (s.obs.failures : Int), (s.x1 : Int), (s.x2 : Int)]
+
+/-- Everything the driver needs to know about one breaker model. -/
+structure Sim (σ : Type) where
+  name      : String
+  m         : Machine σ
+  init      : σ
+  extra     : σ → Nat × Nat
+  /-- would the answer of `ask` depend on less than 50 ms of clock difference? -/
+  ambiguous : σ → Bool
+  P         : Params
+
+def slack : Int := 50000000
+
+def near (a b : Int) : Bool := (a - b < slack) && (b - a < slack)
+
+def healthSim : Sim HealthCB :=
+  { name := "health", m := healthM activeHealth genHCfg, init := HealthCB.init 0,
+    extra := fun s => (if s.lastAttempt.isSome then 1 else 0, 0),
+    ambiguous := fun s => s.isOpen && (near (s.lastFailure + genHCfg.timeout) s.now ||
+      (match s.lastAttempt with | some la => near (la + genHCfg.window) s.now | none => false)),
+    P := healthParams genHCfg }
+
+def engineSim : Sim EngineCB :=
+  { name := "engine", m := engineM genECfg, init := EngineCB.init 0, extra := fun _ => (0, 0),
+    ambiguous := fun s => s.state == .opened && near (s.lastFailure + genECfg.timeout) s.now,
+    P := engineParams genECfg }
+
+def unifierSim : Sim UnifierCB :=
+  { name := "unifier", m := unifierM activeUnifier genUCfg, init := UnifierCB.init 0,
+    extra := fun s => (s.successes, s.halfOpen),
+    ambiguous := fun s => s.state == .opened && near (s.lastFailure + genUCfg.openDuration) s.now,
+    P := unifierParams genUCfg }
+
+/-- Model run: observations, final state, and whether some `ask` was decided within the slack. -/
+def simRun (sim : Sim σ) : σ → List Op → List Step × σ × Bool
+  | s, [] => ([], s, false)
+  | s, op :: ops =>
+    let amb := (op == .ask) && sim.ambiguous s
+    let r := sim.m.step s op
+    let o : Obs := ⟨r.2, sim.m.phase r.1, sim.m.failures r.1⟩
+    let x := sim.extra r.1
+    let (rest, fin, amb') := simRun sim r.1 ops
+    (⟨o, x.1, x.2⟩ :: rest, fin, amb || amb')
+
+/-- One pass of the monitor over an observed history: which clauses fail (in `Clause.all` order), final ghost. -/
+def monitor (P : Params) : Ghost → List Bool → List (Op × Obs) → Ghost × List Bool
+  | g, bad, [] => (g, bad)
+  | g, bad, (op, o) :: rest =>
+    let bad' := (Clause.all.zip bad).map (fun (k, b) => b || !clauseOk P k g op o)
+    monitor P (g.step P op o) bad' rest
+
+def noBad : List Bool := Clause.all.map (fun _ => false)
+
+def firstBad (bad : List Bool) : Option Clause :=
+  ((Clause.all.zip bad).find? (·.2)).map (·.1)
+
+structure Flags where
+  opened : Bool := false
+  denied : Bool := false
+  probe  : Bool := false
+  reclosed : Bool := false
+  refail : Bool := false
+  half : Bool := false
+
+def flagsOf (h : List (Op × Obs)) : Flags :=
+  let rec go (prev : Phase) (f : Flags) : List (Op × Obs) → Flags
+    | [] => f
+    | (op, o) :: rest =>
+      let f := { f with opened := f.opened || o.phase != .closed,
+                        half := f.half || o.phase == .halfOpen,
+                        denied := f.denied || o.res == some false,
+                        probe := f.probe || (prev != .closed && o.res == some true),
+                        reclosed := f.reclosed || (prev != .closed && o.phase == .closed),
+                        refail := f.refail || (prev != .closed && op == .fail) }
+      go o.phase f rest
+  go .closed {} h
+
+def branchOf (name : String) (h : List (Op × Obs)) : String :=
+  let f := flagsOf h
+  if !f.opened then "trivial" else
+  name ++ (if f.denied then ".hold" else "") ++ (if f.probe then ".probe" else "") ++ (if f.half then ".half" else "")
+    ++ (if f.refail then ".refail" else "") ++ (if f.reclosed then ".reclose" else "") ++ ".open"
+
+def opsStr (ops : List Op) : String := " ".intercalate (ops.map opChar)
+
+def handleHist (sim : Sim σ) (case : Nat) (ops : List Op) (impl : List Step) : IO Unit := do
+  let (want, _, amb) := simRun sim sim.init ops
+  if amb then
+    emit case true true "trivial" "" "an ask falls within 50 ms of a time boundary; not compared"
+  else
+    let h := ops.zip (impl.map (·.obs))
+    let (_, bad) := monitor sim.P (Ghost.init 0) noBad h
+    let agree := decide (impl = want) && impl.length == ops.length
+    match firstBad bad with
+    | none => emit case agree true (branchOf sim.name h) "" (if agree then "" else s!"history [{opsStr ops}]")
+                (if agree then Json.null else toJson ((want.map stepInts).flatten))
+    | some k => emit case agree false (branchOf sim.name h) s!"{sim.name}-{k.name}"
+                  s!"{sim.name} breaker, history [{opsStr ops}] violates clause {k.name}; observed (answer,phase,failures,…) per step {(impl.map stepInts)}"
+                  (if agree then Json.null else toJson ((want.map stepInts).flatten))
+
+/-- all words of length k over the alphabet, lexicographic, first position most significant -/
+def words (alpha : List Op) : Nat → List (List Op)
+  | 0 => [[]]
+  | k + 1 => (alpha.map (fun a => (words alpha k).map (a :: ·))).flatten
+
+partial def chunks (n : Nat) (l : List α) : List (List α) :=
+  if n == 0 || l.isEmpty then [] else l.take n :: chunks n (l.drop n)
+
+def handleTree (sim : Sim σ) (case : Nat) (pre : List Op) (alpha : List Op) (depth : Nat)
+    (pobs : List Step) (sobs : List Char) : IO Unit := do
+  let (pwant, pstate, pamb) := simRun sim sim.init pre
+  let ph := pre.zip (pobs.map (·.obs))
+  let (pg, pbad) := monitor sim.P (Ghost.init 0) noBad ph
+  let sufs := words alpha depth
+  let obsChunks := chunks (depth * 5) sobs
+  if pamb then emit case true true "trivial" "" "prefix within 50 ms of a time boundary; not compared" else
+  if obsChunks.length != sufs.length then
+    emit case false true s!"{sim.name}.tree" "" s!"tree case has {obsChunks.length} observation blocks for {sufs.length} continuations"
+  else
+    let pagree := decide (pobs = pwant)
+    -- fold over all continuations: (#disagree, first disagreeing history, per clause: count and first witness)
+    let init : Nat × Option (List Op) × List (Nat × Option (List Op)) × Nat := (if pagree then 0 else 1, (if pagree then none else some pre), Clause.all.map (fun _ => (0, none)), 0)
+    let (nd, firstD, perClause, nontriv) := (sufs.zip obsChunks).foldl (fun (acc : Nat × Option (List Op) × List (Nat × Option (List Op)) × Nat) (so : List Op × List Char) =>
+      let (nd, fd, pc, nt) := acc
+      let (suf, oc) := so
+      let impl := stepsOfChars oc
+      let (want, _, amb) := simRun sim pstate suf
+      if amb then acc else
+      let h := suf.zip (impl.map (·.obs))
+      let (_, bad) := monitor sim.P pg pbad h
+      let ag := decide (impl = want)
+      let pc' := (pc.zip bad).map (fun ((n, w), b) => if b then (n + 1, if w.isNone then some (pre ++ suf) else w) else (n, w))
+      let nt' := if (flagsOf (ph ++ h)).opened then nt + 1 else nt
+      (if ag then nd else nd + 1, if ag || fd.isSome then fd else some (pre ++ suf), pc', nt')) init
+    let viol := ((Clause.all.zip perClause).find? (fun (_, (n, _)) => n > 0))
+    let branch := if nontriv == 0 then "trivial" else s!"{sim.name}.tree.d{pre.length + depth}"
+    match viol with
+    | none => emit case (nd == 0) true branch "" (match firstD with | some o => s!"{nd} continuation(s) disagree, first: [{opsStr o}]" | none => "")
+    | some (k, (n, w)) =>
+      emit case (nd == 0) false branch s!"{sim.name}-{k.name}"
+        s!"{sim.name} breaker: {n} of {sufs.length} continuations of [{opsStr pre}] violate clause {k.name}; first: [{opsStr (w.getD [])}]"
+
+def handleRace (case : Nat) (b : String) (j : Json) : IO Unit := do
+  let m := jnat (jget j "goroutines")
+  let impl := jget j "impl"
+  let lo := jnat (jget impl "min_admitted")
+  let hi := jnat (jget impl "max_admitted")
+  let (P, mlo, mhi) : Params × Nat × Nat :=
+    match b with
+    | "health"  => (healthSim.P, 1, 1)
+    | "engine"  => (engineSim.P, 1, m)
+    | _ => (unifierSim.P, (match activeUnifier with | .pinned => 1 | .fixed => min m genUCfg.halfOpenRequests),
+                          (match activeUnifier with | .pinned => m | .fixed => min m genUCfg.halfOpenRequests))
+  let agree := decide (mlo ≤ lo) && decide (hi ≤ mhi)
+  let spec := raceOk P lo && raceOk P hi
+  emit case agree spec s!"{b}.race" (if spec then "" else s!"{b}-half-open-race")
+    (if spec then "" else s!"{m} concurrent callers on a {b} breaker whose timeout had elapsed: between {lo} and {hi} were let through")
+    (toJson [mlo, mhi])
+
+def handle (j : Json) : IO Unit := do
+  let case := jnat (jget j "case")
+  let kind := jstr (jget j "kind")
+  let b := jstr (jget j "b")
+  match kind with
+  | "hist" =>
+    let ops := (jintList (jget j "ops")).map opOfInt
+    let impl := stepsOfInts (jintList (jget j "obs"))
+    match b with
+    | "health"  => handleHist healthSim case ops impl
+    | "engine"  => handleHist engineSim case ops impl
+    | "unifier" => handleHist unifierSim case ops impl
+    | _ => emit case false true "unknown-breaker" "" s!"unknown breaker {b}"
+  | "tree" =>
+    let pre := (jintList (jget j "prefix")).map opOfInt
+    let alpha := (jintList (jget j "alphabet")).map opOfInt
+    let depth := jnat (jget j "depth")
+    let pobs := stepsOfInts (jintList (jget j "pobs"))
+    let sobs := (jstr (jget j "sobs")).toList
+    match b with
+    | "health"  => handleTree healthSim case pre alpha depth pobs sobs
+    | "engine"  => handleTree engineSim case pre alpha depth pobs sobs
+    | "unifier" => handleTree unifierSim case pre alpha depth pobs sobs
+    | _ => emit case false true "unknown-breaker" "" s!"unknown breaker {b}"
+  | "race" => handleRace case b j
+  | _ => emit case false true "unknown-kind" "" s!"unknown kind {kind}"
+
+def main : IO Unit := do forLines (← IO.getStdin) handle
 
 end Olla.Driver.C08
